@@ -200,6 +200,11 @@ func (p *Parser) ParseFile(filename string, varPool *VarPool) (*MetaData, []*Bui
 
 		// The generated function is a package-level declaration: its name must be free.
 		for _, name := range ownNames {
+			// func init, and func main of a main package, must have no parameters and no results (and init
+			// cannot be called): they are not in the package's scope, the lookups below do not find them.
+			if name == "init" || name == "main" && pkg.Name == "main" {
+				return nil, nil, fmt.Errorf("injector name %s: Go reserves func %s of package %s, it cannot be an injector", name, name, pkg.Name)
+			}
 			if declared[name] > 1 {
 				return nil, nil, fmt.Errorf("injector name %s is used by %d kessoku.Inject declarations of the package", name, declared[name])
 			}
